@@ -391,11 +391,12 @@ fn run_e1store(args: &Args, run_seed: u64, known: &HashSet<String>, dir: &std::p
                 break;
             }
             if let Some(v) = r.violation {
+                let (min, mk, used) = e1_store::shrink_crash(&t, k, &v.class(), dir, args.u64("shrink-budget", 400) as usize);
                 local.violations.push(json!({
                     "violation": v.to_json(),
-                    "trace": e1_store::crash_replay_json(&t, k),
+                    "trace": e1_store::crash_replay_json(&min, mk),
                     "original_steps": t.steps.len(),
-                    "shrink_runs": 0,
+                    "shrink_runs": used,
                     "seed": run_seed.to_string(),
                 }));
                 break;
@@ -424,11 +425,12 @@ fn run_e1store(args: &Args, run_seed: u64, known: &HashSet<String>, dir: &std::p
             local.harness_errors.push(format!("seed {run_seed}: {e}"));
         }
         if let Some(v) = r.violation {
+            let (min, ma, used) = e1_store::shrink_l2(&trace, bits, after, &v.class(), dir, args.u64("shrink-budget", 120) as usize);
             local.violations.push(json!({
                 "violation": v.to_json(),
-                "trace": e1_store::l2_replay_json(&trace, bits, after),
+                "trace": e1_store::l2_replay_json(&min, bits, ma),
                 "original_steps": trace.steps.len(),
-                "shrink_runs": 0,
+                "shrink_runs": used,
                 "seed": run_seed.to_string(),
             }));
         }
